@@ -523,12 +523,17 @@ def _forms(repo, col):
         el = next(a_ for a_ in eq.args if a_.op == "elem")
         other = next(a_ for a_ in eq.args if a_ is not el)
         same_types = el.args[0].args[1].key() == other.key() if len(el.args[0].args) > 1 else False
-        pos0 = T.find(ix, lambda x: x.op == "sub" and x.args[1].op == "const" and x.args[1].name == 0 and T.find(x.args[0], lambda y: y is eq) is not None) is not None
+        pos0 = T.find(ix, lambda x: x.op == "sub" and x.args[1].op == "const" and x.args[1].name == 0 and T.find(x.args[0], lambda y: y is eq) is not None) is not None or \
+            T.find(ix, lambda x: x.op == "mcall" and x.name == "flatnonzero" and T.find(x, lambda y: y is eq) is not None) is not None or \
+            (ix.op == "cmp" and ix is eq)   # the boolean mask itself selects the same branches
         name = s_.value.args[1] if len(s_.value.args) > 1 else None
         from .c11 import _str_parts
         named = False
         if name is not None:
             alts = name.args if name.op == "phi" else ([name.args[1], name.args[2]] if name.op == "ifexp" else [name])
+            # lookup.get(k, f"custom{k}") is `lookup[k] if k in lookup else f"custom{k}"`
+            if name.op == "mcall" and name.name == "get" and len(name.args) == 3 and name.args[0].op == "dict":
+                alts = [T("sub", None, [name.args[0], name.args[1]]), name.args[2]]
             looks = [a_ for a_ in alts if a_.op == "sub" and a_.args[0].op == "dict" and a_.args[1].key() == el.key()]
             customs = [a_ for a_ in alts if a_.op in ("fstr", "joined", "binop", "call", "mcall") and T.find(a_, lambda y: y.key() == el.key()) is not None and
                        T.find(a_, lambda y: y.op == "const" and isinstance(y.name, str) and "custom" in y.name) is not None]
